@@ -67,6 +67,8 @@ def viewOf (k : GKind) (m : FMap) (vals : List (Option (List Int))) : View α :=
   | .scalarId => .scalar (vals.map encScalar)
   | .structId => .struct m.d0 m.d1 m.d2 (vals.map (encStruct (m.d0 * m.d1 * m.d2)))
   | .product => .scalar []
+  | .gradient _ => .scalar []      -- derived features: `plainView` (Proofs/DatasetHistory.lean) and `gradientOf`
+  | .custom _ => .scalar []        -- derived features: `plainView` and `customView`
 
 theorem iterSample_nil (s : Nat) : iterSample [] s = s := rfl
 
@@ -78,6 +80,46 @@ theorem shuffledAll_of_flag0 (g : Gen) (i : Nat) (h : g.infos.getD i 0 = 0) : g.
 
 theorem shouldDrop_of_flag0 (g : Gen) (i : Nat) (h : g.infos.getD i 0 = 0) : g.shouldDrop i = false := by
   unfold Gen.shouldDrop; rw [h]; rfl
+
+@[simp] theorem derived_length (st : Storage) (c : Custom) (m : FMap) (sh ss : List Nat) :
+    (derived st c m sh ss).length = ss.length := by
+  unfold derived
+  cases c.in2 <;> simp [iterate, iterate2]
+
+/-- every result of a harness-defined computer is `customOut` of some pair of summaries -/
+theorem derived_mem (st : Storage) (c : Custom) (m : FMap) (sh ss : List Nat) (x : Option (List Int))
+    (hx : x ∈ derived st c m sh ss) (v : List Int) (hv : x = some v) : ∃ p, v = customOut c p := by
+  subst hv
+  unfold derived at hx
+  cases hc : c.in2 with
+  | none =>
+    simp only [hc, List.mem_map] at hx
+    obtain ⟨y, _, hy⟩ := hx
+    cases y with
+    | none => simp at hy
+    | some w => simp at hy; exact ⟨_, hy.symm⟩
+  | some k2 =>
+    simp only [hc, List.mem_map] at hx
+    obtain ⟨y, _, hy⟩ := hx
+    cases y with
+    | none => simp at hy
+    | some w => simp at hy; exact ⟨_, hy.symm⟩
+
+theorem customOut_length (c : Custom) (p : Int × Int) (h : c.out = .mclass ∨ c.out = .struct) :
+    (customOut c p).length = customCols c.out := by
+  unfold customOut customCols
+  rcases h with h | h <;> rw [h] <;> rfl
+
+/-- labels are in `0..2`, hits are 0 / 1 -/
+theorem customOut_class_nonneg (c : Custom) (p : Int × Int) (h : c.out = .sclass ∨ c.out = .mclass) :
+    ∀ x ∈ customOut c p, 0 ≤ x := by
+  unfold customOut
+  rcases h with h | h <;> rw [h] <;> intro x hx
+  · simp only [List.mem_singleton] at hx
+    subst hx
+    exact Int.emod_nonneg _ (by decide)
+  · simp only [List.mem_cons, List.not_mem_nil, or_false] at hx
+    rcases hx with rfl | rfl <;> split <;> decide
 
 /-- value of a product feature at one stored sample -/
 def productOf (x y : Option (List Int)) : α :=
